@@ -416,6 +416,15 @@ def gen(rng, tier):
     out = []
     # the smallest quartet pairs first: taxa {0,1,2,3} against itself
     out.append(case_quartet(g, rng, tier, small=([0, 1, 2, 3], [0, 1, 2, 3])))
+    # RemoveTips dissolving the root of an unrooted tree whose first remaining neighbour is a tip
+    for rm in ("A", "B"):
+        for order in (["A", "B", "X"], ["X", "A", "B"], ["A", "X", "B"]):
+            for reinit in (False, True):
+                clade = [["C", "D"], ["E", ["F", "G"]]]
+                t = g.decorate([clade if x == "X" else x for x in order], lenmode="all", supmode="mixed")
+                c = {"kind": Sym("edit"), "tree": T(t), "op": Sym("removetips"), "seed": 1, "revert": False,
+                     "names": [rm], "reinit": reinit}
+                out.append({"sx": sx(c), "meta": {"kind": "edit", "op": "removetips:witness", "reinit": reinit}})
     for kind, n in counts.items():
         for _ in range(n):
             out.append(makers[kind](g, rng, tier))
